@@ -22,6 +22,8 @@ structure RepoPkg where
   fetchRestricted : Bool         -- "fetch" in pkg.restrict
   targeted : Bool                -- namespace.restrict matches it
   excluded : Bool                -- namespace.exclude_restrict matches it
+  broken : Bool                  -- evaluating `.distfiles` raises MetadataException (unparsable SRC_URI); `distfiles`
+                                 -- is then what the ebuild means to fetch and is never seen by the code
   deriving Repr
 
 structure Opts where
@@ -83,5 +85,32 @@ def removed (i : Input) : List String :=
 
 /-- the distdir after `_remove` ran (every `os.remove` succeeding) -/
 def left (i : Input) : List String := (names i).filter (fun f => !(removed i).contains f)
+
+/-! ## Packages whose metadata cannot be read
+
+`.distfiles` of a package with an unparsable SRC_URI raises `MetadataException`; `_dist_validate_args` has no handler,
+so the exception leaves the function (argument parsing fails) and `_remove` is never reached.  The attribute is
+evaluated for every package of the repository when `--exists` / `--fetch-restricted` is given, for the packages the
+exclusion restriction matches, and for the packages the target restriction matches. -/
+
+/-- one of the three loops evaluates `pkg.distfiles` -/
+def touched (i : Input) (p : RepoPkg) : Bool :=
+  scans i || (i.opts.hasExclude && p.excluded) || (i.opts.hasRestrict && p.targeted)
+
+/-- `_dist_validate_args` raises `MetadataException` -/
+def aborts (i : Input) : Bool := i.repo.any (fun p => p.broken && touched i p)
+
+/-- what `pclean dist` hands to `os.remove`: `none` when argument validation raised (nothing is removed) -/
+def run (i : Input) : Option (List String) := if aborts i then none else some (removed i)
+
+/-- the distdir after the command -/
+def leftAfter (i : Input) : List String :=
+  match run i with
+  | none => names i
+  | some r => (names i).filter (fun f => !r.contains f)
+
+/-- the same scenario with the unreadable `distfiles` blanked: what the code can actually see -/
+def visible (i : Input) : Input :=
+  { i with repo := i.repo.map (fun p => if p.broken then { p with distfiles := [] } else p) }
 
 end Pkgcore.C46
